@@ -631,7 +631,9 @@ fn non_utf8_twin_pairs(env: &Env) -> Vec<String> {
     fails
 }
 
-fn gen_history(r: &mut Rng, pool: &[Vec<u8>], paths: &[&str]) -> (Tree, Tree, Vec<Op>, &'static str) {
+/// `force`: Some((class, variant)) pins the class of the history (and, where a class has rare sub-variants, which one), so
+/// that every run of the check holds each directed class on each kind of path pool, whatever the random stream does
+fn gen_history(r: &mut Rng, pool: &[Vec<u8>], paths: &[&str], force: Option<(u64, u64)>) -> (Tree, Tree, Vec<Op>, &'static str) {
     let mut a = Tree::new();
     let mut b = Tree::new();
     for p in paths {
@@ -645,7 +647,7 @@ fn gen_history(r: &mut Rng, pool: &[Vec<u8>], paths: &[&str]) -> (Tree, Tree, Ve
     }
     let class: &'static str;
     let mut ops = vec![];
-    match r.below(13) {
+    match force.map(|f| f.0).unwrap_or_else(|| r.below(13)) {
         12 => {
             // a synced FILE is replaced by a directory of its name (its delete is mirrored, the file beneath is propagated),
             // then the directory goes away on both sides and the file comes back on ONE side with its old bytes: it is a new
@@ -728,14 +730,14 @@ fn gen_history(r: &mut Rng, pool: &[Vec<u8>], paths: &[&str]) -> (Tree, Tree, Ve
             if r.chance(1, 2) { ops.push(Op::Run); }
             // (not for names so long that a doubled conflict suffix plus the staging suffix exceeds NAME_MAX: the tool then
             // stops with ENAMETOOLONG, which the model does not have)
-            if r.chance(1, 3) && p.rsplit('/').next().unwrap_or("").len() <= 150 {
+            if (force.is_some() || r.chance(1, 3)) && p.rsplit('/').next().unwrap_or("").len() <= 150 {
                 // ... or the conflict COPY itself becomes the scene of the next conflict: its edit is synced, then one side
                 // edits it again while the other side puts the original loser back - the new loser needs a name of its own
                 // (the conflict name of a conflict name), whichever of the two loses
                 let q2 = format!("{}.conflict-vphost-{}", p, &hex(&h32(&lo))[..12]);
                 // (half of the time the second edit is chosen so that its digest is GREATER than the original loser's: the
                 // original loser loses again, and the name it has to go to is derived from a path that already carries its hash)
-                let want_greater = r.chance(1, 2);
+                let want_greater = match force { Some((_, v)) => v == 1, None => r.chance(1, 2) };
                 let e1: Vec<u8> = (0x2au8..0x6a).map(|k| lo.iter().rev().map(|x| x ^ k).collect::<Vec<u8>>())
                     .find(|c| (h32(c) > h32(&lo)) == want_greater).unwrap_or_else(|| lo.iter().rev().map(|x| x ^ 0x2a).collect());
                 let side = r.chance(1, 2);
@@ -823,12 +825,14 @@ pub fn main(a: Args) -> i32 {
         let paths2 = ["d.x", "d-y", "d/h", "d/k"];
         // and one in three on four paths drawn from the pool of hostile names (util::hostile_paths)
         (0..n).map(|i| {
+            // the first 78 histories: every class on every kind of path pool, twice (variant 0 / 1)
+            let force = if i < 78 { Some(((i as u64 / 3) % 13, i as u64 / 39)) } else { None };
             if i % 3 == 1 {
                 let hp = hostile_paths(&mut r, 4);
                 let hp: Vec<&str> = hp.iter().map(|x| x.as_str()).collect();
-                if hp.len() == 4 { return gen_history(&mut r, &pool, &hp); }
+                if hp.len() == 4 { return gen_history(&mut r, &pool, &hp, force); }
             }
-            gen_history(&mut r, &pool, if i % 3 == 2 { &paths2 } else { &paths })
+            gen_history(&mut r, &pool, if i % 3 == 2 { &paths2 } else { &paths }, force)
         }).collect()
     };
     let mut nfail = 0u64;
